@@ -1,4 +1,5 @@
 import Driver.C20
+import Driver.C05
 import Driver.C18
 import Driver.C17
 import Driver.C03
@@ -29,6 +30,8 @@ structure St where
 def step (st : St) (line : String) : St × String :=
   match (line.trimAscii.toString.splitOn " ").filter (· ≠ "") with
   | "c20" :: rest => (st, C20.handle rest)
+  | "c05" :: rest => (st, C05.handleAll rest)
+  | "c06" :: rest => (st, C05.handle06 rest)
   | "c18" :: rest => (st, C18.handle rest)
   | "c17" :: rest => let (s17, o) := C17.step st.c17 rest; ({ st with c17 := s17 }, o)
   | "c03" :: rest => let (s, o) := C03.step st.c03 rest; ({ st with c03 := s }, o)
